@@ -209,6 +209,52 @@ func vpC11_O3() {
 
 func init() {
 	vpHarnesses["vpC11_O4"] = vpC11_O4
+	vpHarnesses["vpC11_O5"] = vpC11_O5
+}
+
+// C11-O5: a revoked holder (its prime was removed from the accumulator; the old
+// witness is useless against the new accumulator) computes what it still can
+// honestly and replaces C_u and/or C_r by a multiple k*N of the modulus
+// (k = -2..3, including the plain 0): the relations through the replaced
+// element collapse to 0 for every challenge, so their commitments can be
+// hashed as 0 beforehand. The newest signed accumulator is attached. Such a
+// proof must be rejected: the verifier never reads "not revoked" for it.
+func vpC11_O5() {
+	s := vpRevocableCredential(0, "")
+	ctx, nonce := vpBigBits("ctx", 256), vpBigBits("nonce", 80)
+	acc1, ev, err := s.acc.Remove(s.sk, s.cred.NonRevocationWitness.E, s.upd.Events[0])
+	vpAssume(err == nil)
+	upd1, err := revocation.NewUpdate(s.sk, acc1, []*revocation.Event{ev})
+	vpAssume(err == nil)
+	b, err := s.cred.CreateDisclosureProofBuilder([]int{1}, nil, true)
+	vpAssume(err == nil && len(b.nonrevBuilder.commitments) == 6)
+	mult := func(name string) *big.Int {
+		return new(big.Int).Mul(big.NewInt(int64(vpChoose(name, 6)-2)), s.pk.N)
+	}
+	// commitments are [C_r, C_u, nu, T_cr, T_nu, T_one]
+	cm := b.nonrevBuilder.commitments
+	which := vpChoose("degenerate", 3) // 0: C_u, 1: C_r, 2: both
+	var fCr, fCu *big.Int
+	if which != 1 {
+		fCu = mult("kCu")
+		cm[1], cm[4] = fCu, big.NewInt(0)
+	}
+	if which != 0 {
+		fCr = mult("kCr")
+		cm[0], cm[3], cm[5] = fCr, big.NewInt(0), big.NewInt(0)
+	}
+	cm[2] = acc1.Nu
+	c, err := ProofBuilderList{b}.Challenge(ctx, nonce, false)
+	vpAssume(err == nil && c.Sign() != 0)
+	proof := b.CreateProof(c).(*ProofD)
+	if fCu != nil {
+		proof.NonRevocationProof.Cu = fCu
+	}
+	if fCr != nil {
+		proof.NonRevocationProof.Cr = fCr
+	}
+	proof.NonRevocationProof.SignedAccumulator = &revocation.SignedAccumulator{Data: upd1.SignedAccumulator.Data, PKCounter: upd1.SignedAccumulator.PKCounter}
+	vpAssert("a revoked holder's proof with commitments that vanish modulo N is rejected", !vpVerifyRobust(proof, s.pk, ctx, nonce))
 }
 
 // C11-O4: a holder without a usable witness attaches a non-revocation part
